@@ -180,17 +180,51 @@ type xtok struct {
 
 // xevent is what both this lexer and encoding/xml must agree on.
 type xevent struct {
-	kind  string // start end pi comment cdata text
+	kind  string // start end pi comment cdata
 	name  string
 	attrs [][2]string
 }
 
+// The generated document as a list of constructs (the same shape as the Coq grammar Xml/WellFormed.v).
+type xattr struct {
+	lead, name, ws1, ws2 string
+	q                    byte
+	val                  string
+}
+
+// DOCTYPE body piece: kind 0 = one plain byte, 1 = double-quoted literal, 2 = '[' inner ']'
+type xpiece struct {
+	kind  int
+	c     byte
+	s     string
+	inner []xpiece
+}
+
+const (
+	itText = iota
+	itComment
+	itCdata
+	itDoctype
+	itPI
+	itStart
+	itEnd
+)
+
+type xitem struct {
+	kind   int
+	s      string // text / body / target / name
+	pieces []xpiece
+	attrs  []xattr
+	ws     string
+	void   bool
+}
+
 type xdoc struct {
-	src    []byte
-	toks   []xtok
-	feats  map[string]bool
-	hasCR  bool
-	events []xevent
+	items []xitem
+	src   []byte
+	toks  []xtok
+	feats map[string]bool
+	hasCR bool
 }
 
 func (d *xdoc) feat(s string) { d.feats[s] = true }
@@ -232,47 +266,31 @@ func genXMLWS(r *Rng, atLeastOne bool) string {
 
 var c11ValChunks = []string{"", "v", "1", "a b", "x>y", "a/>b", "?>", "é", "\t", "\n", "\r", " ", "=", "!--", "]]", "-->", "/", "a-b", "\n\t "}
 
-// genXMLAttr appends one attribute (leading whitespace included, as the lexer returns it).
-func genXMLAttr(r *Rng, d *xdoc, names map[string]bool, ev *xevent) {
+// genXMLAttr derives one attribute: S Name S? '=' S? quoted value.
+func genXMLAttr(r *Rng, names map[string]bool) xattr {
 	name := genXMLName(r)
 	for names[name] {
 		name += "q"
 	}
 	names[name] = true
-	lead := genXMLWS(r, true)
-	eq := genXMLWS(r, false) + "=" + genXMLWS(r, false)
-	q := "\""
+	a := xattr{lead: genXMLWS(r, true), name: name, ws1: genXMLWS(r, false), ws2: genXMLWS(r, false), q: '"'}
 	if r.Bool() {
-		q = "'"
-		d.feat("squote")
-	} else {
-		d.feat("dquote")
+		a.q = '\''
 	}
-	val := ""
 	for k := r.Intn(3); k > 0; k-- {
-		val += r.PickStr(c11ValChunks)
+		a.val += r.PickStr(c11ValChunks)
 	}
 	if r.Chance(1, 4) { // the other quote inside the value
-		if q == "\"" {
-			val += "'"
+		if a.q == '"' {
+			a.val += "'"
 		} else {
-			val += "\""
+			a.val += "\""
 		}
-		d.feat("otherquote")
 	}
-	val = strings.ReplaceAll(val, "\r\n", "\r") // CRLF: see the oracle comment
-	if strings.ContainsAny(val, "\t\n\r") {
-		d.feat("attr-ws")
-	}
-	if len(eq) > 1 {
-		d.feat("eq-ws")
-	}
-	raw := lead + name + eq + q + val + q
-	d.src = append(d.src, raw...)
-	d.toks = append(d.toks, xtok{tt: xml.AttributeToken, data: lead + name + eq + q + normWS(val) + q, text: name, attr: q + normWS(val) + q})
-	if ev != nil {
-		ev.attrs = append(ev.attrs, [2]string{name, normWS(val)})
-	}
+	// CRLF inside a value: XML 1.0 normalises it to ONE space, this lexer (which rewrites in place,
+	// as C02 sanctions) to two; encoding/xml to one LF.  Not generated; see the final report.
+	a.val = strings.ReplaceAll(a.val, "\r\n", "\r")
+	return a
 }
 
 var c11TextChunks = []string{"t", "text", " ", "\n", "a > b", "]]", "--", "x=\"y\"", "é", "&amp;", "&#65;", "/", "?", "!", "'", "\"", "]>", "\t"}
@@ -282,32 +300,30 @@ func genXMLText(r *Rng) string {
 	for k := 1 + r.Intn(3); k > 0; k-- {
 		s += r.PickStr(c11TextChunks)
 	}
-	for strings.Contains(s, "]]>") {
-		s = strings.ReplaceAll(s, "]]>", "]] >")
-	}
 	return s
 }
 
-func (d *xdoc) addText(s string) {
+type xbuilder struct {
+	r     *Rng
+	items []xitem
+}
+
+func (b *xbuilder) addText(s string) {
 	if s == "" {
 		return
 	}
-	if n := len(d.toks); n > 0 && d.toks[n-1].tt == xml.TextToken && strings.Contains(d.toks[n-1].data+s, "]]>") {
-		s = " " + s
+	if n := len(b.items); n > 0 && b.items[n-1].kind == itText {
+		s = b.items[n-1].s + s
+		b.items = b.items[:n-1]
 	}
-	d.src = append(d.src, s...)
-	if n := len(d.toks); n > 0 && d.toks[n-1].tt == xml.TextToken {
-		d.toks[n-1].data += s
-		d.toks[n-1].text += s
-		d.events[len(d.events)-1].name += s
-		return
+	for strings.Contains(s, "]]>") { // not allowed in character data
+		s = strings.ReplaceAll(s, "]]>", "]] >")
 	}
-	d.toks = append(d.toks, xtok{tt: xml.TextToken, data: s, text: s, attrNil: true})
-	d.events = append(d.events, xevent{kind: "text", name: s})
-	d.feat("text")
+	b.items = append(b.items, xitem{kind: itText, s: s})
 }
 
-func (d *xdoc) addComment(r *Rng) {
+func (b *xbuilder) addComment() {
+	r := b.r
 	body := ""
 	for k := r.Intn(4); k > 0; k-- {
 		body += r.PickStr([]string{"c", " ", "-", "->", ">", "<a>", "<!", "]]>", "\"", "é", "\n", "- "})
@@ -318,14 +334,11 @@ func (d *xdoc) addComment(r *Rng) {
 	if strings.HasSuffix(body, "-") {
 		body += " "
 	}
-	s := "<!--" + body + "-->"
-	d.src = append(d.src, s...)
-	d.toks = append(d.toks, xtok{tt: xml.CommentToken, data: s, text: body, attrNil: true})
-	d.events = append(d.events, xevent{kind: "comment", name: body})
-	d.feat("comment")
+	b.items = append(b.items, xitem{kind: itComment, s: body})
 }
 
-func (d *xdoc) addCDATA(r *Rng) {
+func (b *xbuilder) addCDATA() {
+	r := b.r
 	body := ""
 	for k := r.Intn(4); k > 0; k-- {
 		body += r.PickStr([]string{"d", " ", "]", "]]", "]>", ">", "<a>", "-->", "&amp;", "\"", "é", "<![CDATA["})
@@ -333,113 +346,118 @@ func (d *xdoc) addCDATA(r *Rng) {
 	for strings.Contains(body, "]]>") {
 		body = strings.ReplaceAll(body, "]]>", "]] ")
 	}
-	s := "<![CDATA[" + body + "]]>"
-	d.src = append(d.src, s...)
-	d.toks = append(d.toks, xtok{tt: xml.CDATAToken, data: s, text: body, attrNil: true})
-	d.events = append(d.events, xevent{kind: "cdata", name: body})
-	d.feat("cdata")
+	b.items = append(b.items, xitem{kind: itCdata, s: body})
 }
 
 // addPI: a processing instruction whose content is a list of pseudo-attributes (as in the prolog).
-func (d *xdoc) addPI(r *Rng, prolog bool) {
-	target := genXMLName(r)
-	if strings.EqualFold(target, "xml") {
-		target = "xmlx"
+func (b *xbuilder) addPI(prolog bool) {
+	r := b.r
+	it := xitem{kind: itPI, s: genXMLName(r)}
+	if strings.EqualFold(it.s, "xml") {
+		it.s = "xmlx"
 	}
 	if prolog {
-		target = "xml"
-	}
-	s := "<?" + target
-	d.src = append(d.src, s...)
-	d.toks = append(d.toks, xtok{tt: xml.StartTagPIToken, data: s, text: target, attrNil: true})
-	names := map[string]bool{}
-	if prolog {
-		d.src = append(d.src, ` version="1.0"`...)
-		d.toks = append(d.toks, xtok{tt: xml.AttributeToken, data: ` version="1.0"`, text: "version", attr: `"1.0"`})
+		it.s = "xml"
+		it.attrs = append(it.attrs, xattr{lead: " ", name: "version", q: '"', val: "1.0"})
 		if r.Bool() {
-			d.src = append(d.src, ` encoding='UTF-8'`...)
-			d.toks = append(d.toks, xtok{tt: xml.AttributeToken, data: ` encoding='UTF-8'`, text: "encoding", attr: `'UTF-8'`})
+			it.attrs = append(it.attrs, xattr{lead: " ", name: "encoding", q: '\'', val: "UTF-8"})
 		}
-		d.feat("prolog")
 	} else {
+		names := map[string]bool{}
 		for k := r.Intn(3); k > 0; k-- {
-			genXMLAttr(r, d, names, nil)
+			it.attrs = append(it.attrs, genXMLAttr(r, names))
 		}
-		d.feat("pi")
 	}
-	d.src = append(d.src, genXMLWS(r, false)...)
-	d.src = append(d.src, "?>"...)
-	d.toks = append(d.toks, xtok{tt: xml.StartTagClosePIToken, data: "?>", textNil: true, attrNil: true})
-	d.events = append(d.events, xevent{kind: "pi", name: target})
+	it.ws = genXMLWS(r, false)
+	b.items = append(b.items, it)
+}
+
+func dtPlain(s string) []xpiece {
+	var out []xpiece
+	for i := 0; i < len(s); i++ {
+		out = append(out, xpiece{kind: 0, c: s[i]})
+	}
+	return out
 }
 
 // addDoctype: name, optional external id, optional internal subset with declarations whose
 // double-quoted literals may contain '>' and brackets. Only constructs both quote-tracking rules
-// (the lexer's: '"' only) agree on are generated here; the others are generated by c11DoctypeHard.
-func (d *xdoc) addDoctype(r *Rng, root string) {
-	body := genXMLWS(r, true) + root
+// (the lexer's: '"' only) agree on are generated here; the others are in c11HardDocs.
+func (b *xbuilder) addDoctype(root string) {
+	r := b.r
+	ps := dtPlain(genXMLWS(r, true) + root)
 	switch r.Intn(3) {
 	case 1:
-		body += ` SYSTEM "` + r.PickStr([]string{"a.dtd", "x>y", "a[b]", "it's", ""}) + `"`
-		d.feat("doctype-system")
+		ps = append(ps, dtPlain(" SYSTEM ")...)
+		ps = append(ps, xpiece{kind: 1, s: r.PickStr([]string{"a.dtd", "x>y", "a[b]", "it's", ""})})
 	case 2:
-		body += ` PUBLIC "-//W3C//DTD X//EN" "` + r.PickStr([]string{"a.dtd", "x>y", "]>"}) + `"`
-		d.feat("doctype-public")
+		ps = append(ps, dtPlain(" PUBLIC ")...)
+		ps = append(ps, xpiece{kind: 1, s: "-//W3C//DTD X//EN"})
+		ps = append(ps, dtPlain(" ")...)
+		ps = append(ps, xpiece{kind: 1, s: r.PickStr([]string{"a.dtd", "x>y", "]>"})})
 	}
 	if r.Bool() {
-		body += genXMLWS(r, false) + "["
-		for k := r.Intn(4); k > 0; k-- {
-			body += r.PickStr([]string{
-				"<!ELEMENT a (#PCDATA)>", "<!ENTITY e \"v\">", "<!ENTITY g \"a>b\">", "<!ENTITY h \"]>\">", "<!ENTITY i \"[\">",
-				"<!ATTLIST a b CDATA #IMPLIED>", "\n", " ", "<!ENTITY % p \"x\">", "<!NOTATION n SYSTEM \"u\">",
-			})
+		ps = append(ps, dtPlain(genXMLWS(r, false))...)
+		var inner []xpiece
+		decl := func(pre, lit, post string) {
+			inner = append(inner, dtPlain(pre)...)
+			if lit != "\x00" {
+				inner = append(inner, xpiece{kind: 1, s: lit})
+			}
+			inner = append(inner, dtPlain(post)...)
 		}
-		body += "]" + genXMLWS(r, false)
-		d.feat("doctype-subset")
+		for k := r.Intn(4); k > 0; k-- {
+			switch r.Intn(10) {
+			case 0:
+				decl("<!ELEMENT a (#PCDATA)>", "\x00", "")
+			case 1:
+				decl("<!ENTITY e ", "v", ">")
+			case 2:
+				decl("<!ENTITY g ", "a>b", ">")
+			case 3:
+				decl("<!ENTITY h ", "]>", ">")
+			case 4:
+				decl("<!ENTITY i ", "[", ">")
+			case 5:
+				decl("<!ATTLIST a b CDATA #IMPLIED>", "\x00", "")
+			case 6:
+				decl("\n", "\x00", "")
+			case 7:
+				decl(" ", "\x00", "")
+			case 8:
+				decl("<!ENTITY % p ", "x", ">")
+			case 9:
+				decl("<!NOTATION n SYSTEM ", "u", ">")
+			}
+		}
+		ps = append(ps, xpiece{kind: 2, inner: inner})
+		ps = append(ps, dtPlain(genXMLWS(r, false))...)
 	}
-	s := "<!DOCTYPE" + body + ">"
-	d.src = append(d.src, s...)
-	d.toks = append(d.toks, xtok{tt: xml.DOCTYPEToken, data: s, text: body, attrNil: true})
-	d.feat("doctype")
+	b.items = append(b.items, xitem{kind: itDoctype, pieces: ps})
 }
 
-func (d *xdoc) addElement(r *Rng, depth int, name string) {
+func (b *xbuilder) addElement(depth int, name string) {
+	r := b.r
 	if name == "" {
 		name = genXMLName(r)
 	}
-	s := "<" + name
-	d.src = append(d.src, s...)
-	d.toks = append(d.toks, xtok{tt: xml.StartTagToken, data: s, text: name, attrNil: true})
-	ev := xevent{kind: "start", name: name}
+	it := xitem{kind: itStart, s: name}
 	names := map[string]bool{}
 	for k := r.Intn(4); k > 0; k-- {
-		genXMLAttr(r, d, names, &ev)
+		it.attrs = append(it.attrs, genXMLAttr(r, names))
 	}
-	d.events = append(d.events, ev)
-	ws := genXMLWS(r, false)
-	d.src = append(d.src, ws...)
-	if ws != "" {
-		d.feat("ws-before-closer")
-	}
-	if r.Chance(1, 3) {
-		d.src = append(d.src, "/>"...)
-		d.toks = append(d.toks, xtok{tt: xml.StartTagCloseVoidToken, data: "/>", textNil: true, attrNil: true})
-		d.events = append(d.events, xevent{kind: "end", name: name})
-		d.feat("empty-element")
+	it.ws = genXMLWS(r, false)
+	it.void = r.Chance(1, 3)
+	b.items = append(b.items, it)
+	if it.void {
 		return
 	}
-	d.src = append(d.src, ">"...)
-	d.toks = append(d.toks, xtok{tt: xml.StartTagCloseToken, data: ">", textNil: true, attrNil: true})
-	d.addContent(r, depth+1)
-	ws = genXMLWS(r, false)
-	e := "</" + name + ws + ">"
-	d.src = append(d.src, e...)
-	d.toks = append(d.toks, xtok{tt: xml.EndTagToken, data: e, text: name, attrNil: true})
-	d.events = append(d.events, xevent{kind: "end", name: name})
-	d.feat("element")
+	b.addContent(depth + 1)
+	b.items = append(b.items, xitem{kind: itEnd, s: name, ws: genXMLWS(r, false)})
 }
 
-func (d *xdoc) addContent(r *Rng, depth int) {
+func (b *xbuilder) addContent(depth int) {
+	r := b.r
 	n := r.Intn(4)
 	if depth > 3 {
 		n = r.Intn(2)
@@ -447,51 +465,159 @@ func (d *xdoc) addContent(r *Rng, depth int) {
 	for i := 0; i < n; i++ {
 		switch r.Intn(6) {
 		case 0, 1:
-			d.addText(genXMLText(r))
+			b.addText(genXMLText(r))
 		case 2:
 			if depth <= 3 {
-				d.addElement(r, depth, "")
+				b.addElement(depth, "")
 			}
 		case 3:
-			d.addComment(r)
+			b.addComment()
 		case 4:
-			d.addCDATA(r)
+			b.addCDATA()
 		case 5:
-			d.addPI(r, false)
+			b.addPI(false)
 		}
 	}
 }
 
-func (d *xdoc) addMisc(r *Rng) {
+func (b *xbuilder) addMisc() {
+	r := b.r
 	for k := r.Intn(3); k > 0; k-- {
 		switch r.Intn(4) {
 		case 0, 1:
-			d.addText(r.PickStr([]string{"\n", " ", "\r\n", "\n  "}))
+			b.addText(r.PickStr([]string{"\n", " ", "\r\n", "\n  "}))
 		case 2:
-			d.addComment(r)
+			b.addComment()
 		case 3:
-			d.addPI(r, false)
+			b.addPI(false)
 		}
 	}
 }
 
-// genXMLDoc derives a well-formed document together with the tokens the property prescribes.
-func genXMLDoc(r *Rng) *xdoc {
-	d := &xdoc{feats: map[string]bool{}}
-	if r.Chance(2, 3) {
-		d.addPI(r, true)
+func renderPieces(ps []xpiece) string {
+	var sb strings.Builder
+	for _, p := range ps {
+		switch p.kind {
+		case 0:
+			sb.WriteByte(p.c)
+		case 1:
+			sb.WriteString("\"" + p.s + "\"")
+		case 2:
+			sb.WriteString("[" + renderPieces(p.inner) + "]")
+		}
 	}
-	d.addMisc(r)
-	root := genXMLName(r)
-	if r.Chance(1, 2) {
-		d.addDoctype(r, root)
-		d.addMisc(r)
+	return sb.String()
+}
+
+// buildDoc renders the constructs and lists the tokens the property prescribes for them.
+func buildDoc(items []xitem) *xdoc {
+	d := &xdoc{items: items, feats: map[string]bool{}}
+	tok := func(t xtok) { d.toks = append(d.toks, t) }
+	attrs := func(as []xattr) {
+		for _, a := range as {
+			eq := a.ws1 + "=" + a.ws2
+			q := string(a.q)
+			d.src = append(d.src, a.lead+a.name+eq+q+a.val+q...)
+			tok(xtok{tt: xml.AttributeToken, data: a.lead + a.name + eq + q + normWS(a.val) + q, text: a.name, attr: q + normWS(a.val) + q})
+			if a.q == '"' {
+				d.feat("dquote")
+			} else {
+				d.feat("squote")
+			}
+			if strings.ContainsAny(a.val, "\"'") {
+				d.feat("otherquote")
+			}
+			if strings.ContainsAny(a.val, "\t\n\r") {
+				d.feat("attr-ws")
+			}
+			if len(eq) > 1 {
+				d.feat("eq-ws")
+			}
+		}
 	}
-	d.addElement(r, 0, root)
-	d.addMisc(r)
+	for _, it := range items {
+		switch it.kind {
+		case itText:
+			d.src = append(d.src, it.s...)
+			tok(xtok{tt: xml.TextToken, data: it.s, text: it.s, attrNil: true})
+			d.feat("text")
+		case itComment:
+			s := "<!--" + it.s + "-->"
+			d.src = append(d.src, s...)
+			tok(xtok{tt: xml.CommentToken, data: s, text: it.s, attrNil: true})
+			d.feat("comment")
+		case itCdata:
+			s := "<![CDATA[" + it.s + "]]>"
+			d.src = append(d.src, s...)
+			tok(xtok{tt: xml.CDATAToken, data: s, text: it.s, attrNil: true})
+			d.feat("cdata")
+		case itDoctype:
+			body := renderPieces(it.pieces)
+			s := "<!DOCTYPE" + body + ">"
+			d.src = append(d.src, s...)
+			tok(xtok{tt: xml.DOCTYPEToken, data: s, text: body, attrNil: true})
+			d.feat("doctype")
+			if strings.Contains(body, "[") {
+				d.feat("doctype-subset")
+			}
+		case itPI:
+			s := "<?" + it.s
+			d.src = append(d.src, s...)
+			tok(xtok{tt: xml.StartTagPIToken, data: s, text: it.s, attrNil: true})
+			attrs(it.attrs)
+			d.src = append(d.src, it.ws+"?>"...)
+			tok(xtok{tt: xml.StartTagClosePIToken, data: "?>", textNil: true, attrNil: true})
+			if it.s == "xml" {
+				d.feat("prolog")
+			} else {
+				d.feat("pi")
+			}
+		case itStart:
+			s := "<" + it.s
+			d.src = append(d.src, s...)
+			tok(xtok{tt: xml.StartTagToken, data: s, text: it.s, attrNil: true})
+			attrs(it.attrs)
+			if it.ws != "" {
+				d.feat("ws-before-closer")
+			}
+			if it.void {
+				d.src = append(d.src, it.ws+"/>"...)
+				tok(xtok{tt: xml.StartTagCloseVoidToken, data: "/>", textNil: true, attrNil: true})
+				d.feat("empty-element")
+			} else {
+				d.src = append(d.src, it.ws+">"...)
+				tok(xtok{tt: xml.StartTagCloseToken, data: ">", textNil: true, attrNil: true})
+			}
+		case itEnd:
+			s := "</" + it.s + it.ws + ">"
+			d.src = append(d.src, s...)
+			tok(xtok{tt: xml.EndTagToken, data: s, text: it.s, attrNil: true})
+			d.feat("element")
+		}
+	}
 	d.hasCR = bytes.IndexByte(d.src, '\r') >= 0
 	return d
 }
+
+// genXMLItems derives a well-formed document as a list of constructs.
+func genXMLItems(r *Rng) []xitem {
+	b := &xbuilder{r: r}
+	if r.Chance(2, 3) {
+		b.addPI(true)
+	}
+	b.addMisc()
+	root := genXMLName(r)
+	if r.Chance(1, 2) {
+		b.addDoctype(root)
+		b.addMisc()
+	}
+	b.addElement(0, root)
+	b.addMisc()
+	return b.items
+}
+
+// genXMLDoc derives a well-formed document together with the tokens the property prescribes.
+func genXMLDoc(r *Rng) *xdoc { return buildDoc(genXMLItems(r)) }
 
 // mutateXML applies 1-3 byte-level edits: flips to class representatives, deletions, insertions,
 // NUL, truncation, duplication of a piece.
@@ -968,7 +1094,8 @@ func c11HardDocs(r *Rng) []struct {
 	} {
 		d := &xdoc{feats: map[string]bool{}}
 		if pre != "" {
-			d.addText(pre)
+			d.src = append(d.src, pre...)
+			d.toks = append(d.toks, xtok{tt: xml.TextToken, data: pre, text: pre, attrNil: true})
 		}
 		if doctypeBody != "" {
 			s := "<!DOCTYPE" + doctypeBody + ">"
@@ -980,7 +1107,11 @@ func c11HardDocs(r *Rng) []struct {
 			// expectation here is only structural (first and last token), checked by the caller
 			d.src = append(d.src, piRaw...)
 		}
-		d.addElement(r, 3, "a")
+		b := &xbuilder{r: r}
+		b.addElement(3, "a")
+		e := buildDoc(b.items)
+		d.src = append(d.src, e.src...)
+		d.toks = append(d.toks, e.toks...)
 		return struct {
 			cat string
 			d   *xdoc
@@ -1038,7 +1169,7 @@ func c11WellFormedOracle(r *Rng, tier string, rep *Report) {
 
 func init() {
 	props["C11"] = &PropSpec{
-		Models: []*Model{xmlModel},
+		Models: []*Model{xmlModel, xmlspecModel},
 		Oracles: []*Oracle{
 			{Name: "c11-structure", Run: c11StructOracle},
 			{Name: "c11-wellformed-vs-encoding-xml", Run: c11WellFormedOracle},
